@@ -1,1 +1,716 @@
-From C12 Require Import Model.
+(* C12/Lemmas.v — proofs about Model.v / Base.v / gen/Time.v *)
+From Common Require Import Prelude.
+From Coq Require Import QArith Qround Qabs Lqa.
+From C12 Require Import Base Model.
+From C12.gen Require Import Time.
+Open Scope Z_scope.
+
+(* ---------------------------------------------------------------------------------------------- *)
+(* 1. the range check implies the declared range (IEEE <=, false on NaN)                           *)
+Lemma range_within p v : range_check p v = Ok tt -> within p v = true.
+Proof.
+  unfold range_check, within. destruct p as [[|c p]|]; auto.
+  destruct (split_on 44 (c :: p)) as [|p0 [|p1 rest]]; try discriminate.
+  - destruct (bound_of p0) as [lo|e]; cbn [bindR]; try discriminate.
+    destruct lo as [l|]; [destruct (fl_le l v)|]; cbn; discriminate.
+  - destruct (bound_of p0) as [lo|e]; cbn [bindR]; try discriminate.
+    destruct (bound_of p1) as [hi|e]; cbn [bindR].
+    + destruct lo as [l|]; [destruct (fl_le l v); cbn; try discriminate|];
+        (destruct hi as [h|]; [destruct (fl_le v h); cbn; try discriminate|]); reflexivity.
+    + destruct lo as [l|]; [destruct (fl_le l v); cbn; discriminate|]; cbn; discriminate.
+Qed.
+
+Lemma fl_le_not_nan_l a b : fl_le a b = true -> a <> FNaN.
+Proof. destruct a; cbn; congruence. Qed.
+Lemma fl_le_not_nan_r a b : fl_le a b = true -> b <> FNaN.
+Proof. destruct a, b; cbn; try congruence; destruct neg; congruence. Qed.
+
+(* a value inside a range that has at least one bound is not NaN *)
+Lemma within_not_nan p0 p1 rest c p :
+  split_on 44 (c :: p) = p0 :: p1 :: rest ->
+  (zs_eqb p0 s_NONE_U = false \/ zs_eqb p1 s_NONE_U = false) ->
+  within (Some (c :: p)) FNaN = false.
+Proof.
+  intros Hs Hb. unfold within. rewrite Hs. unfold bound_of.
+  destruct Hb as [Hb|Hb]; rewrite Hb.
+  - destruct (parse_float p0) as [f|]; [|reflexivity].
+    destruct (fl_has_bad f); [reflexivity|].
+    destruct (if zs_eqb p1 s_NONE_U then _ else _); [|reflexivity].
+    destruct f as [q| |[]|]; reflexivity.
+  - destruct (if zs_eqb p0 s_NONE_U then _ else _) as [lo|]; [|reflexivity].
+    destruct (parse_float p1) as [f|]; [|reflexivity].
+    destruct (fl_has_bad f); [reflexivity|].
+    destruct lo as [l|]; [destruct (fl_le l FNaN) eqn:E|]; cbn; try reflexivity.
+Qed.
+
+(* ---------------------------------------------------------------------------------------------- *)
+(* 2. scalar validators are sound                                                                  *)
+Lemma bindR_ok {A B} (r : result A) (f : A -> result B) y :
+  bindR r f = Ok y -> exists x, r = Ok x /\ f x = Ok y.
+Proof. destruct r; cbn; intro H; [eauto|discriminate H]. Qed.
+
+Lemma v_bool_kind item r : v_bool item = Ok r -> r = YNone \/ exists b, r = YBool b.
+Proof.
+  unfold v_bool. destruct item; intro H; try discriminate H; try (inversion H; eauto; fail).
+  destruct (mem_str (lower s) false_words); [inversion H; eauto|].
+  destruct (mem_str (lower s) true_words); [inversion H; eauto|discriminate H].
+Qed.
+
+Lemma num_value_kind item v :
+  num_value item = Ok v -> (exists b, v = YBool b) \/ (exists z, v = YInt z) \/ (exists f t, v = YFloat f t).
+Proof.
+  unfold num_value. destruct item; intro H; try discriminate H; try (inversion H; eauto; fail).
+  destruct (mem_z 46 s).
+  - destruct (parse_float s) as [f|]; [|discriminate H]. destruct (fl_has_bad f); [discriminate H|].
+    inversion H; eauto 6.
+  - destruct (parse_int s); inversion H; eauto.
+Qed.
+
+Lemma is_pow2_spec z : is_pow2 z = true -> (0 <? z) && (z =? 2 ^ Z.log2 z) = true.
+Proof.
+  unfold is_pow2. intro H. apply andb_true_iff in H as [Hz Hl].
+  apply negb_true_iff in Hz. apply Z.eqb_neq in Hz. apply Z.eqb_eq in Hl.
+  assert (Hpos : 0 < z).
+  { destruct (Z.lt_trichotomy z 0) as [Hn|[E|Hp]]; [|contradiction|assumption].
+    exfalso. assert (Z.land z (z - 1) < 0) by (apply Z.land_neg; lia). lia. }
+  apply andb_true_iff; split; [apply Z.ltb_lt; assumption|]. apply Z.eqb_eq.
+  pose proof (Z.log2_spec z Hpos) as [Hlo Hhi].
+  set (k := Z.log2 z) in *. assert (Hk : 0 <= k) by apply Z.log2_nonneg.
+  destruct (Z.eq_dec z (2 ^ k)) as [E|NE]; [assumption|exfalso].
+  (* z = 2^k + r with 0 < r < 2^k: bit k is set in z and in z-1 *)
+  assert (Hb1 : Z.testbit z k = true) by (apply Z.bit_log2; assumption).
+  assert (Hb2 : Z.testbit (z - 1) k = true).
+  { assert (Hz1 : 0 < z - 1) by lia.
+    assert (Z.log2 (z - 1) = k).
+    { apply Z.log2_unique; [assumption|]. lia. }
+    rewrite <- H. apply Z.bit_log2. assumption. }
+  assert (Z.testbit (Z.land z (z - 1)) k = true) by (rewrite Z.land_spec, Hb1, Hb2; reflexivity).
+  rewrite Hl in H. rewrite Z.bits_0 in H. discriminate H.
+Qed.
+
+Lemma lower_c_idem c : lower_c (lower_c c) = lower_c c.
+Proof.
+  unfold lower_c, is_upper. destruct ((65 <=? c) && (c <=? 90)) eqn:E.
+  - apply andb_true_iff in E as [E1 E2]. apply Z.leb_le in E1. apply Z.leb_le in E2.
+    replace (c + 32 <=? 90) with false by (symmetry; apply Z.leb_gt; lia).
+    rewrite andb_false_r. reflexivity.
+  - rewrite E. reflexivity.
+Qed.
+
+Lemma lower_idem s : zs_eqb (lower s) (lower (lower s)) = true.
+Proof.
+  apply zs_eqb_spec. unfold lower. rewrite map_map. apply map_ext. intro c.
+  symmetry. apply lower_c_idem.
+Qed.
+
+Lemma validate_scalar_sound m k : forall param item r,
+  validate_scalar m k param item = Ok r -> has_kind m k param r = true.
+Proof.
+  induction k; intros param item r H; cbn [validate_scalar] in H; cbn [has_kind].
+  - (* KStr *) destruct item; try discriminate H; try (inversion H; reflexivity);
+      cbn in H; inversion H; reflexivity.
+  - (* KLstr *)
+    destruct item; try discriminate H; try (inversion H; reflexivity); cbn in H; inversion H;
+      apply lower_idem.
+  - (* KFloat *)
+    destruct item; try (inversion H; reflexivity);
+      apply bindR_ok in H as [v [_ H]]; apply bindR_ok in H as [[] [Hr H]]; inversion H;
+      apply range_within; assumption.
+  - (* KInt *)
+    destruct item; try (inversion H; reflexivity);
+      apply bindR_ok in H as [v [_ H]]; apply bindR_ok in H as [[] [Hr H]]; inversion H;
+      apply range_within; assumption.
+  - (* KNum *)
+    destruct item; try (inversion H; reflexivity);
+      apply bindR_ok in H as [v [Hv H]]; apply bindR_ok in H as [[] [Hr H]]; inversion H; subst r;
+      apply range_within in Hr;
+      apply num_value_kind in Hv as [[b0 E]|[[z0 E]|[f0 [t0 E]]]]; subst v; assumption.
+  - (* KBool *)
+    destruct (assert_no_param param); [|discriminate H].
+    apply v_bool_kind in H as [E|[b E]]; subst r; reflexivity.
+  - (* KMs *)
+    destruct (assert_no_param param); [|discriminate H].
+    destruct item; try (inversion H; reflexivity);
+      match type of H with context [string_to_ms ?x] => destruct (string_to_ms x) as [z0|[]] end;
+      inversion H; reflexivity.
+  - (* KSecs *)
+    destruct (assert_no_param param); [|discriminate H].
+    destruct item; try (inversion H; reflexivity);
+      match type of H with context [string_to_secs ?x] => destruct (string_to_secs x) as [f0|[]] end;
+      try discriminate H; try (destruct (fl_has_bad f0)); inversion H; reflexivity.
+  - (* KList *) apply bindR_ok in H as [l [_ H]]. inversion H. reflexivity.
+  - (* KDict *)
+    destruct (negb (truthy item)); [inversion H; reflexivity|].
+    destruct item; try discriminate H. destruct (assert_no_param param); inversion H. reflexivity.
+  - (* KBoolInt *)
+    apply bindR_ok in H as [b [_ H]]. inversion H. destruct (truthy b); reflexivity.
+  - (* KPow2 *)
+    destruct item; try (inversion H; reflexivity);
+      match type of H with context [to_int ?x] => destruct (to_int x) as [z0|[]] end; try discriminate H;
+      destruct (is_pow2 z0) eqn:E; try discriminate H; inversion H; apply is_pow2_spec; assumption.
+  - (* KEnum *)
+    destruct param as [p|]; [|discriminate H].
+    set (values := split_on 44 (lower p)) in *.
+    destruct (match item with YStr s => YStr (lower s) | _ => item end) as [| b | z | f t | s | l | d | l | s | s n] eqn:Ei;
+      try discriminate H.
+    + (* None *) destruct (mem_str s_none values); [inversion H; reflexivity|].
+      cbn in H. destruct (mem_str s_None values) eqn:E2; [inversion H; assumption|discriminate H].
+    + cbn in H. destruct (mem_str (if b then s_True else s_False) values) eqn:E; [inversion H; assumption|].
+      destruct b; [destruct (mem_str s_yes values) eqn:E2|destruct (mem_str s_no values) eqn:E2];
+        inversion H; assumption.
+    + cbn in H. destruct (mem_str (print_int z) values) eqn:E; inversion H; assumption.
+    + cbn in H. destruct (mem_str t values) eqn:E; inversion H; assumption.
+    + cbn in H. destruct (mem_str s values) eqn:E; inversion H; assumption.
+  - (* KMachine *)
+    destruct param as [p|]; [|discriminate H].
+    destruct item; try discriminate H; try (inversion H; reflexivity).
+    destruct s as [|c s]; [discriminate H|].
+    destruct (mem_str (c :: s) (section_of m p)) eqn:E; inversion H.
+    rewrite E. rewrite (proj2 (zs_eqb_spec p p) eq_refl). reflexivity.
+  - (* KTok *)
+    assert (Hin : forall r, has_kind m k param r = true ->
+                       match r with YToken _ => true | _ => has_kind m k param r end = true)
+      by (intros r0 Hr; destruct r0; auto).
+    destruct item; try (apply Hin; apply (IHk _ _ _ H)).
+    destruct (starts_with s [40] && ends_with s [41]); [inversion H; reflexivity|].
+    apply Hin; apply (IHk _ _ _ H).
+  - discriminate H.
+  - discriminate H.
+Qed.
+
+Lemma validate_item_sound m validator item r :
+  validate_item m validator item = Ok r -> has_type m validator r = true.
+Proof.
+  unfold validate_item, has_type. destruct (parse_validator validator) as [name [param|]].
+  - destruct (kind_of name) eqn:K; cbn [takes_param]; intro H; try discriminate H;
+      apply (validate_scalar_sound _ _ _ _ _ H).
+  - destruct (kind_of name) eqn:K; cbn [needs_param]; intro H; try discriminate H;
+      apply (validate_scalar_sound _ _ _ _ _ H).
+Qed.
+
+(* ---------------------------------------------------------------------------------------------- *)
+(* 3. item types: list / set / dict / event_handler                                                *)
+Lemma map_result_forall {A B} (f : A -> result B) (P : B -> bool) :
+  (forall x y, f x = Ok y -> P y = true) ->
+  forall l rs, map_result f l = Ok rs -> forallb P rs = true.
+Proof.
+  intros Hf. induction l as [|a l IH]; cbn; intros rs H.
+  - inversion H; reflexivity.
+  - apply bindR_ok in H as [y [Hy H]]. apply bindR_ok in H as [ys [Hys H]]. inversion H. cbn.
+    rewrite (Hf _ _ Hy), (IH _ Hys). reflexivity.
+Qed.
+
+Lemma forallb_dedup P l : forallb P l = true -> forallb P (dedup l) = true.
+Proof.
+  induction l as [|a l IH]; cbn; auto. intro H. apply andb_true_iff in H as [H1 H2].
+  destruct (existsb (key_eqb a) l); cbn; auto. rewrite H1. auto.
+Qed.
+
+Definition typed_d (P Q : yv -> bool) (d : list (yv * yv)) : bool :=
+  forallb (fun kv => P (fst kv) && Q (snd kv)) d.
+
+Lemma dict_set_typed P Q k v d :
+  P k = true -> Q v = true -> typed_d P Q d = true -> typed_d P Q (dict_set k v d) = true.
+Proof.
+  intros Hk Hv. unfold typed_d. induction d as [|[k' v'] d IH]; cbn; intro H.
+  - rewrite Hk, Hv. reflexivity.
+  - apply andb_true_iff in H as [H1 H2]. apply andb_true_iff in H1 as [H1 H1'].
+    destruct (key_eqb k k'); cbn.
+    + rewrite H1, Hv, H2. reflexivity.
+    + rewrite H1, H1', (IH H2). reflexivity.
+Qed.
+
+Lemma fold_err {A B} (step : result A -> B -> result A) (l : list B) e :
+  (forall x, step (Err e) x = Err e) -> fold_left step l (Err e) = Err e.
+Proof. intro Hs. induction l as [|x l IH]; cbn; [reflexivity|]. rewrite Hs. exact IH. Qed.
+
+Lemma validate_dict_sound m is_eh validation item r :
+  validate_dict m is_eh validation item = Ok r ->
+  exists d, r = YDict d /\
+    typed_d (has_type m (nth 0 (split_on 58 validation) [])) (has_type m (nth 1 (split_on 58 validation) [])) d = true.
+Proof.
+  unfold validate_dict. destruct (negb (mem_z 58 validation)); [intro H; discriminate H|].
+  set (v0 := nth 0 (split_on 58 validation) []). set (v1 := nth 1 (split_on 58 validation) []).
+  intro H. apply bindR_ok in H as [kvs [_ H]]. apply bindR_ok in H as [d [Hf H]]. inversion H; subst r.
+  exists d. split; [reflexivity|].
+  assert (G : forall kvs d0 d, typed_d (has_type m v0) (has_type m v1) d0 = true ->
+               fold_left (fun acc kv =>
+                 bindR acc (fun d1 => bindR (validate_item m v1 (snd kv)) (fun rv =>
+                 bindR (validate_item m v0 (fst kv)) (fun rk =>
+                 if hashable rk then Ok (dict_set rk rv d1) else Err EType)))) kvs (Ok d0) = Ok d ->
+               typed_d (has_type m v0) (has_type m v1) d = true).
+  { clear. induction kvs as [|kv kvs IH]; intros d0 d T0 Hf; cbn in Hf.
+    - inversion Hf; subst; assumption.
+    - destruct (validate_item m v1 (snd kv)) as [rv|e] eqn:E1; cbn in Hf;
+        [|rewrite fold_err in Hf by reflexivity; discriminate Hf].
+      destruct (validate_item m v0 (fst kv)) as [rk|e] eqn:E0; cbn in Hf;
+        [|rewrite fold_err in Hf by reflexivity; discriminate Hf].
+      destruct (hashable rk); [|rewrite fold_err in Hf by reflexivity; discriminate Hf].
+      apply (IH _ _ (dict_set_typed _ _ _ _ _ (validate_item_sound _ _ _ _ E0)
+                                     (validate_item_sound _ _ _ _ E1) T0) Hf). }
+  apply (G kvs [] d eq_refl Hf).
+Qed.
+
+Lemma validate_config_item_sound m ty va de item r :
+  validate_config_item m ty va de item = Ok r -> has_item_type m ty va r = true.
+Proof.
+  unfold validate_config_item, has_item_type. intro H. apply bindR_ok in H as [it [_ H]].
+  destruct (zs_eqb ty s_single); [apply (validate_item_sound _ _ _ _ H)|].
+  destruct (zs_eqb ty n_list_ty).
+  { apply bindR_ok in H as [l [_ H]]. apply bindR_ok in H as [rs [Hm H]]. inversion H.
+    assert (Hf : forall i y, (if is_blank i then Err (ECfg 15) else validate_item m va i) = Ok y ->
+                             has_type m va y = true).
+    { intros i y Hy. destruct (is_blank i); [discriminate Hy|exact (validate_item_sound _ _ _ _ Hy)]. }
+    apply (map_result_forall _ _ Hf _ _ Hm). }
+  destruct (zs_eqb ty s_set).
+  { destruct (string_to_list it) as [l|e]; [|discriminate H].
+    destruct (forallb _ l); [|discriminate H].
+    destruct (map_result (validate_item m va) (dedup l)) as [rs|[]] eqn:Hm; try discriminate H.
+    destruct (forallb hashable rs); [|discriminate H]. inversion H.
+    apply forallb_dedup. apply (map_result_forall _ _ (fun i y Hy => validate_item_sound _ _ _ _ Hy) _ _ Hm). }
+  destruct (zs_eqb ty n_event_handler); cbn [orb].
+  { destruct (zs_eqb va s_eh_ms); [|discriminate H].
+    apply validate_dict_sound in H as [d [E T]]. subst r. exact T. }
+  destruct (zs_eqb ty n_dict_ty); [|discriminate H].
+  apply validate_dict_sound in H as [d [E T]]. subst r. exact T.
+Qed.
+
+(* ---------------------------------------------------------------------------------------------- *)
+(* 4. sections                                                                                     *)
+Lemma iter_result_err {A} (f : A -> result unit) l x e :
+  In x l -> f x = Err e -> exists e', iter_result f l = Err e'.
+Proof.
+  induction l as [|a l IH]; cbn; intros Hin Hx; [contradiction|].
+  destruct Hin as [E|Hin].
+  - subst a. rewrite Hx. cbn. eauto.
+  - destruct (f a) as [[]|e0]; cbn; [apply (IH Hin Hx)|eauto].
+Qed.
+
+Lemma unknown_key_rejected_l m add_missing sp kvs k c v :
+  spec_has s_allow_others sp = false ->
+  In (YStr (c :: k), v) kvs ->
+  spec_has (c :: k) sp = false ->
+  c <> 95 ->
+  exists e, validate_config m false add_missing sp (YDict kvs) = Err e.
+Proof.
+  intros Ha Hin Hk Hc. unfold validate_config. rewrite Ha.
+  destruct (iter_result_err (fun kv => match fst kv with
+                                       | YStr s => check_key sp false s
+                                       | _ => Err (ECfg 3)
+                                       end) kvs (YStr (c :: k), v) (ECfg 2) Hin) as [e' He'].
+  { cbn. unfold check_key. rewrite Hk. apply Z.eqb_neq in Hc. rewrite Hc. reflexivity. }
+  cbn [check_invalid]. rewrite He'. cbn. eauto.
+Qed.
+
+Lemma dict_set_has k' v d k : dict_has k d = true -> dict_has k (dict_set k' v d) = true.
+Proof.
+  unfold dict_has. induction d as [|[k0 v0] d IH]; cbn; [intro H; discriminate H|].
+  destruct (key_eqb k' k0) eqn:E; cbn.
+  - destruct (key_eqb k k0); auto.
+  - destruct (key_eqb k k0); auto.
+Qed.
+
+Lemma section_step_keeps m add k acc ke d :
+  section_step m add acc ke = Ok d -> exists d0, acc = Ok d0 /\ (dict_has k d0 = true -> dict_has k d = true).
+Proof.
+  unfold section_step. intro H. apply bindR_ok in H as [d0 [E H]]. exists d0. split; [assumption|].
+  intro Hk. destruct (snd ke) eqn:Es.
+  - inversion H; subst; assumption.
+  - destruct (fst ke) as [|c0 k0] eqn:Ek; [discriminate H|]. destruct (starts_underscore (c0 :: k0)); [inversion H; subst; assumption|].
+    destruct (dict_get (YStr (c0 :: k0)) d0).
+    + apply bindR_ok in H as [r [_ H]]. inversion H. apply dict_set_has. assumption.
+    + destruct add; [|inversion H; subst; assumption].
+      apply bindR_ok in H as [r [_ H]]. inversion H. apply dict_set_has. assumption.
+  - destruct (fst ke) as [|c0 k0] eqn:Ek; [discriminate H|]. destruct (starts_underscore (c0 :: k0)); [inversion H; subst; assumption|].
+    destruct (dict_get (YStr (c0 :: k0)) d0); [discriminate H|].
+    destruct add; inversion H; subst; [apply dict_set_has|]; assumption.
+  - destruct (fst ke) as [|c0 k0] eqn:Ek; [discriminate H|]. destruct (starts_underscore (c0 :: k0)); [inversion H; subst; assumption|].
+    destruct (dict_get (YStr (c0 :: k0)) d0); [discriminate H|].
+    destruct add; inversion H; subst; [apply dict_set_has|]; assumption.
+Qed.
+
+Lemma section_fold_keeps m add k : forall sp d0 d,
+  fold_left (section_step m add) sp (Ok d0) = Ok d -> dict_has k d0 = true -> dict_has k d = true.
+Proof.
+  induction sp as [|ke sp IH]; cbn [fold_left]; intros d0 d H Hk.
+  - inversion H; subst; assumption.
+  - destruct (section_step m add (Ok d0) ke) as [d1|e] eqn:E.
+    + destruct (section_step_keeps _ _ k _ _ _ E) as [d0' [E0 Hd]]. inversion E0; subst d0'.
+      apply (IH _ _ H (Hd Hk)).
+    + rewrite fold_err in H; [discriminate H|reflexivity].
+Qed.
+
+Lemma dict_has_in k v kvs : In (k, v) kvs -> key_eqb k k = true -> dict_has k kvs = true.
+Proof.
+  unfold dict_has. induction kvs as [|[k0 v0] kvs IH]; cbn; intros Hin Hr; [contradiction|].
+  destruct Hin as [E|Hin].
+  - inversion E; subst. rewrite Hr. reflexivity.
+  - destruct (key_eqb k k0); [reflexivity|]. apply IH; assumption.
+Qed.
+
+Lemma provided_key_kept_l m ai add sp kvs d k v :
+  validate_config m ai add sp (YDict kvs) = Ok (YDict d) ->
+  In (k, v) kvs -> key_eqb k k = true -> dict_has k d = true.
+Proof.
+  unfold validate_config. intros H Hin Hr. apply bindR_ok in H as [[] [_ H]].
+  apply bindR_ok in H as [d' [Hf H]]. inversion H; subst d'.
+  apply (section_fold_keeps _ _ _ _ _ _ Hf). apply (dict_has_in _ _ _ Hin Hr).
+Qed.
+
+(* completeness: every non-private spec key is present and well typed *)
+Lemma key_eqb_str a x : key_eqb (YStr a) x = true -> x = YStr a.
+Proof.
+  destruct x; cbn; intro H; try discriminate H.
+  apply zs_eqb_spec in H. subst; reflexivity.
+Qed.
+
+Lemma key_eqb_str_refl a : key_eqb (YStr a) (YStr a) = true.
+Proof. cbn. apply zs_eqb_spec. reflexivity. Qed.
+
+Lemma dict_get_set_same a v d : dict_get (YStr a) (dict_set (YStr a) v d) = Some v.
+Proof.
+  induction d as [|[k0 v0] d IH]; cbn [dict_get dict_set].
+  - rewrite key_eqb_str_refl. reflexivity.
+  - destruct (key_eqb (YStr a) k0) eqn:E; cbn [dict_get]; rewrite E; [reflexivity|exact IH].
+Qed.
+
+Lemma key_eqb_str_ne a b : a <> b -> key_eqb (YStr a) (YStr b) = false.
+Proof.
+  intro Hne. cbn. destruct (zs_eqb a b) eqn:E; [apply zs_eqb_spec in E; contradiction|reflexivity].
+Qed.
+
+Lemma dict_get_set_other a b v d :
+  a <> b -> dict_get (YStr a) (dict_set (YStr b) v d) = dict_get (YStr a) d.
+Proof.
+  intro Hne. induction d as [|[k0 v0] d IH]; cbn [dict_get dict_set].
+  - rewrite (key_eqb_str_ne _ _ Hne). reflexivity.
+  - destruct (key_eqb (YStr b) k0) eqn:E; cbn [dict_get].
+    + apply key_eqb_str in E. subst k0. rewrite (key_eqb_str_ne _ _ Hne). reflexivity.
+    + destruct (key_eqb (YStr a) k0); [reflexivity|exact IH].
+Qed.
+
+Lemma section_step_get_other m add a d0 ke d :
+  section_step m add (Ok d0) ke = Ok d -> fst ke <> a -> dict_get (YStr a) d = dict_get (YStr a) d0.
+Proof.
+  unfold section_step. cbn [bindR]. intros H Hne.
+  assert (Hne' : a <> fst ke) by congruence.
+  destruct (snd ke) eqn:Es.
+  - inversion H; reflexivity.
+  - destruct (fst ke) as [|c0 k0] eqn:Ek; [discriminate H|].
+    destruct (starts_underscore (c0 :: k0)); [inversion H; reflexivity|].
+    destruct (dict_get (YStr (c0 :: k0)) d0).
+    + apply bindR_ok in H as [r [_ H]]. inversion H. apply dict_get_set_other; assumption.
+    + destruct add; [|inversion H; reflexivity].
+      apply bindR_ok in H as [r [_ H]]. inversion H. apply dict_get_set_other; assumption.
+  - destruct (fst ke) as [|c0 k0] eqn:Ek; [discriminate H|].
+    destruct (starts_underscore (c0 :: k0)); [inversion H; reflexivity|].
+    destruct (dict_get (YStr (c0 :: k0)) d0); [discriminate H|].
+    destruct add; inversion H; [apply dict_get_set_other; assumption|reflexivity].
+  - destruct (fst ke) as [|c0 k0] eqn:Ek; [discriminate H|].
+    destruct (starts_underscore (c0 :: k0)); [inversion H; reflexivity|].
+    destruct (dict_get (YStr (c0 :: k0)) d0); [discriminate H|].
+    destruct add; inversion H; [apply dict_get_set_other; assumption|reflexivity].
+Qed.
+
+Lemma section_fold_get_other m add a : forall sp d0 d,
+  fold_left (section_step m add) sp (Ok d0) = Ok d -> ~ In a (map fst sp) ->
+  dict_get (YStr a) d = dict_get (YStr a) d0.
+Proof.
+  induction sp as [|ke sp IH]; cbn [fold_left map]; intros d0 d H Hn.
+  - inversion H; reflexivity.
+  - destruct (section_step m add (Ok d0) ke) as [d1|e] eqn:E.
+    + rewrite (IH _ _ H) by (intro Hc; apply Hn; right; exact Hc).
+      apply (section_step_get_other _ _ _ _ _ _ E). intro Hc. apply Hn. left. exact Hc.
+    + rewrite fold_err in H; [discriminate H|reflexivity].
+Qed.
+
+Lemma section_step_item m d0 k ty va de d :
+  section_step m true (Ok d0) (k, SItem ty va de) = Ok d -> starts_underscore k = false ->
+  exists v, dict_get (YStr k) d = Some v /\ has_item_type m ty va v = true.
+Proof.
+  unfold section_step. cbn [bindR fst snd]. intros H Hu.
+  destruct k as [|c0 k0]; [discriminate H|]. rewrite Hu in H.
+  destruct (dict_get (YStr (c0 :: k0)) d0);
+    apply bindR_ok in H as [r [Hr H]]; inversion H; exists r;
+    (split; [apply dict_get_set_same|apply (validate_config_item_sound _ _ _ _ _ _ Hr)]).
+Qed.
+
+Lemma section_fold_complete m : forall sp d0 d,
+  NoDup (map fst sp) ->
+  fold_left (section_step m true) sp (Ok d0) = Ok d ->
+  forall k ty va de, In (k, SItem ty va de) sp -> starts_underscore k = false ->
+    exists v, dict_get (YStr k) d = Some v /\ has_item_type m ty va v = true.
+Proof.
+  induction sp as [|ke sp IH]; cbn [fold_left map]; intros d0 d Hnd H k ty va de Hin Hu; [contradiction|].
+  inversion Hnd as [|x xs Hnot Hnd']; subst.
+  destruct (section_step m true (Ok d0) ke) as [d1|e] eqn:E;
+    [|rewrite fold_err in H; [discriminate H|reflexivity]].
+  destruct Hin as [Eq|Hin].
+  - subst ke. cbn [fst] in Hnot. destruct (section_step_item _ _ _ _ _ _ _ E Hu) as [v [Hg Ht]].
+    exists v. split; [|exact Ht].
+    rewrite (section_fold_get_other _ _ _ _ _ _ H Hnot). exact Hg.
+  - apply (IH _ _ Hnd' H _ _ _ _ Hin Hu).
+Qed.
+
+Lemma validate_config_complete_l m ai sp kvs d :
+  NoDup (map fst sp) ->
+  validate_config m ai true sp (YDict kvs) = Ok (YDict d) ->
+  forall k ty va de, In (k, SItem ty va de) sp -> starts_underscore k = false ->
+    exists v, dict_get (YStr k) d = Some v /\ has_item_type m ty va v = true.
+Proof.
+  unfold validate_config. intros Hnd H. apply bindR_ok in H as [[] [_ H]].
+  apply bindR_ok in H as [d' [Hf H]]. inversion H; subst d'.
+  apply (section_fold_complete _ _ _ _ Hnd Hf).
+Qed.
+
+(* the result of validate_config is a dict or an error *)
+Lemma validate_config_dict m ai add sp src r :
+  validate_config m ai add sp src = Ok r -> exists d, r = YDict d.
+Proof.
+  unfold validate_config. intro H. apply bindR_ok in H as [[] [_ H]].
+  destruct (match src with YNone => YDict [] | s => s end); try discriminate H.
+  apply bindR_ok in H as [d [_ H]]. inversion H. eauto.
+Qed.
+
+(* the spec store is never modified by a validation, and the cache only ever holds fresh merges *)
+Definition cache_ok (st : store) : Prop :=
+  forall names sp, names_get names (st_cache st) = Some sp ->
+                   exists specs, lookup_specs st names = Some specs /\ sp = build_spec specs.
+
+Lemma spec_unchanged_l m ai add st names src :
+  st_specs (fst (validate_config_st m ai add st names src)) = st_specs st.
+Proof.
+  unfold validate_config_st. destruct (names_get names (st_cache st)); [reflexivity|].
+  destruct (lookup_specs st names); reflexivity.
+Qed.
+
+Lemma cache_ok_preserved m ai add st names src :
+  cache_ok st -> cache_ok (fst (validate_config_st m ai add st names src)).
+Proof.
+  unfold validate_config_st. intro Hc. destruct (names_get names (st_cache st)) eqn:E; [exact Hc|].
+  destruct (lookup_specs st names) as [specs|] eqn:L; [|exact Hc].
+  cbn [fst]. intros n sp. cbn [st_cache names_get].
+  destruct (list_eqb zs_eqb n names) eqn:En.
+  - intro H. inversion H; subst sp. apply (list_eqb_spec zs_eqb zs_eqb_spec) in En. subst n.
+    exists specs. split; [exact L|reflexivity].
+  - intro H. destruct (Hc _ _ H) as [sp' [L' E']]. exists sp'. split; [exact L'|exact E'].
+Qed.
+
+(* a validation through the store gives the same answer as one against a freshly built spec *)
+Lemma store_result_fresh m ai add st names src specs :
+  cache_ok st -> lookup_specs st names = Some specs ->
+  snd (validate_config_st m ai add st names src) = validate_config m ai add (build_spec specs) src.
+Proof.
+  unfold validate_config_st. intros Hc L. destruct (names_get names (st_cache st)) as [sp|] eqn:E.
+  - destruct (Hc _ _ E) as [specs' [L' E']]. rewrite L in L'. inversion L'; subst. reflexivity.
+  - rewrite L. reflexivity.
+Qed.
+
+(* ---------------------------------------------------------------------------------------------- *)
+(* 5. time strings: the TRANSLATED suffix chain (gen/Time.v) gives value times unit                 *)
+From C12 Require Import FloatLemmas.
+Open Scope Z_scope.
+
+Definition is_num_end (c : Z) : bool := is_digit c || (c =? 46).     (* a digit or '.' *)
+
+Lemma ends_with_app s suf : ends_with (s ++ suf) suf = true.
+Proof. unfold ends_with. rewrite rev_app_distr. apply zs_prefixb_app. Qed.
+
+Lemma drop_last_app s suf : drop_last (length suf) (s ++ suf) = s.
+Proof.
+  unfold drop_last. rewrite rev_app_distr. rewrite <- (rev_length suf).
+  rewrite skipn_app, Nat.sub_diag, skipn_all. cbn. apply rev_involutive.
+Qed.
+
+Lemma upper_num_end c : is_num_end c = true -> upper_c c = c.
+Proof.
+  unfold is_num_end, is_digit, upper_c, is_lower. intro H.
+  destruct ((97 <=? c) && (c <=? 122)) eqn:E; [|reflexivity].
+  apply andb_true_iff in E as [E1 E2]. apply Z.leb_le in E1.
+  apply orb_true_iff in H as [H|H].
+  - apply andb_true_iff in H as [_ H]. apply Z.leb_le in H. lia.
+  - apply Z.eqb_eq in H. lia.
+Qed.
+
+Lemma upper_body bs c suf :
+  is_num_end c = true -> upper ((bs ++ [c]) ++ suf) = (upper bs ++ [c]) ++ upper suf.
+Proof.
+  intro H. unfold upper. rewrite !map_app. cbn [map]. fold (upper_c c). rewrite (upper_num_end _ H). reflexivity.
+Qed.
+
+Lemma num_end_not_letter c : is_num_end c = true ->
+  (c =? 67) = false /\ (c =? 68) = false /\ (c =? 69) = false /\ (c =? 72) = false /\
+  (c =? 77) = false /\ (c =? 83) = false.
+Proof.
+  unfold is_num_end, is_digit. intro H.
+  assert (c <= 57)%Z.
+  { apply orb_true_iff in H as [H|H]; [apply andb_true_iff in H as [_ H]; apply Z.leb_le in H; lia|
+                                     apply Z.eqb_eq in H; lia]. }
+  repeat split; apply Z.eqb_neq; lia.
+Qed.
+
+(* which branch of the chain a string "<body><SUFFIX>" takes, for a body ending in a digit or '.' *)
+Ltac eval_const_eqb :=
+  repeat match goal with
+         | |- context [Z.eqb (Zpos ?a) (Zpos ?b)] =>
+             let r := eval vm_compute in (Z.eqb (Zpos a) (Zpos b)) in
+             change (Z.eqb (Zpos a) (Zpos b)) with r
+         end.
+
+Ltac chain_dispatch Hc :=
+  unfold string_to_ms_chain, ends_with; rewrite !rev_app_distr; cbn [rev app zs_prefixb];
+  destruct (num_end_not_letter _ Hc) as (N67 & N68 & N69 & N72 & N77 & N83);
+  eval_const_eqb;
+  rewrite ?(Z.eqb_sym 67), ?(Z.eqb_sym 68), ?(Z.eqb_sym 69), ?(Z.eqb_sym 72), ?(Z.eqb_sym 77), ?(Z.eqb_sym 83);
+  rewrite ?N67, ?N68, ?N69, ?N72, ?N77, ?N83; cbn [andb orb].
+
+Lemma chain_S b c : is_num_end c = true ->
+  string_to_ms_chain ((b ++ [c]) ++ [83]) = r_id (r_round (r_fmul (e_float_of_str (b ++ [c])) 1000)).
+Proof.
+  intro Hc. rewrite <- (drop_last_app (b ++ [c]) [83]) at 2. chain_dispatch Hc. reflexivity.
+Qed.
+Lemma chain_SEC b c : is_num_end c = true ->
+  string_to_ms_chain ((b ++ [c]) ++ [83;69;67]) = r_id (r_round (r_fmul (e_float_of_str (b ++ [c])) 1000)).
+Proof.
+  intro Hc. rewrite <- (drop_last_app (b ++ [c]) [83;69;67]) at 2. chain_dispatch Hc. reflexivity.
+Qed.
+Lemma chain_M b c : is_num_end c = true ->
+  string_to_ms_chain ((b ++ [c]) ++ [77]) =
+  r_id (r_round (r_fmul (r_fmul (e_float_of_str (b ++ [c])) 60) 1000)).
+Proof.
+  intro Hc. rewrite <- (drop_last_app (b ++ [c]) [77]) at 2. chain_dispatch Hc. reflexivity.
+Qed.
+Lemma chain_H b c : is_num_end c = true ->
+  string_to_ms_chain ((b ++ [c]) ++ [72]) =
+  r_id (r_round (r_fmul (r_fmul (e_float_of_str (b ++ [c])) 3600) 1000)).
+Proof.
+  intro Hc. rewrite <- (drop_last_app (b ++ [c]) [72]) at 2. chain_dispatch Hc. reflexivity.
+Qed.
+Lemma chain_D b c : is_num_end c = true ->
+  string_to_ms_chain ((b ++ [c]) ++ [68]) =
+  r_id (r_round (r_fmul (r_fmul (e_float_of_str (b ++ [c])) 86400) 1000)).
+Proof.
+  intro Hc. rewrite <- (drop_last_app (b ++ [c]) [68]) at 2. chain_dispatch Hc. reflexivity.
+Qed.
+Lemma chain_MS b c : is_num_end c = true ->
+  string_to_ms_chain ((b ++ [c]) ++ [77;83]) = e_int_of_str (b ++ [c]).
+Proof.
+  intro Hc. rewrite <- (drop_last_app (b ++ [c]) [77;83]) at 2. chain_dispatch Hc. reflexivity.
+Qed.
+Lemma chain_MSEC b c : is_num_end c = true ->
+  string_to_ms_chain ((b ++ [c]) ++ [77;83;69;67]) = e_int_of_str (b ++ [c]).
+Proof.
+  intro Hc. rewrite <- (drop_last_app (b ++ [c]) [77;83;69;67]) at 2. chain_dispatch Hc. reflexivity.
+Qed.
+
+Lemma fl_1000 : fl_of_Z 1000 = FNum (1000 # 1). Proof. vm_compute. reflexivity. Qed.
+Lemma fl_60 : fl_of_Z 60 = FNum (60 # 1). Proof. vm_compute. reflexivity. Qed.
+Lemma fl_3600 : fl_of_Z 3600 = FNum (3600 # 1). Proof. vm_compute. reflexivity. Qed.
+Lemma fl_86400 : fl_of_Z 86400 = FNum (86400 # 1). Proof. vm_compute. reflexivity. Qed.
+
+Definition unit_ms (u : str) : option Q :=
+  if zs_eqb u [83] || zs_eqb u [83;69;67] then Some (1000 # 1)%Q
+  else if zs_eqb u [77] then Some (60000 # 1)%Q
+  else if zs_eqb u [72] then Some (3600000 # 1)%Q
+  else if zs_eqb u [68] then Some (86400000 # 1)%Q
+  else None.
+
+(* value times unit, for the float-valued suffixes: s sec m h d in any letter case *)
+Lemma time_float_units b c suf unit x N :
+  is_num_end c = true ->
+  unit_ms (upper suf) = Some unit ->
+  e_float_of_str (upper b ++ [c]) = Ok (fnum x) ->        (* float() reads the text before the suffix as x *)
+  (0 <= x)%Q -> (x * unit == inject_Z N)%Q -> (N < 2 ^ 49)%Z ->
+  string_to_ms (YStr ((b ++ [c]) ++ suf)) = Ok N.
+Proof.
+  intros Hc Hu Hf Hx HN Hlt. cbn [string_to_ms py_str]. rewrite (upper_body _ _ _ Hc).
+  unfold unit_ms in Hu.
+  destruct (zs_eqb (upper suf) [83] || zs_eqb (upper suf) [83;69;67])%bool eqn:E1.
+  { inversion Hu; subst unit. apply orb_true_iff in E1 as [E|E]; apply zs_eqb_spec in E; rewrite E;
+      [rewrite (chain_S _ _ Hc)|rewrite (chain_SEC _ _ Hc)]; rewrite Hf;
+      apply (chain1 1000 (1000 # 1)%Q x N fl_1000); try assumption; lra. }
+  destruct (zs_eqb (upper suf) [77]) eqn:E2.
+  { inversion Hu; subst unit. apply zs_eqb_spec in E2. rewrite E2, (chain_M _ _ Hc), Hf.
+    apply (chain2 60 1000 (60 # 1) (1000 # 1) x N fl_60 fl_1000); try assumption; try lra; rewrite <- HN; ring. }
+  destruct (zs_eqb (upper suf) [72]) eqn:E3.
+  { inversion Hu; subst unit. apply zs_eqb_spec in E3. rewrite E3, (chain_H _ _ Hc), Hf.
+    apply (chain2 3600 1000 (3600 # 1) (1000 # 1) x N fl_3600 fl_1000); try assumption; try lra; rewrite <- HN; ring. }
+  destruct (zs_eqb (upper suf) [68]) eqn:E4; [|discriminate Hu].
+  inversion Hu; subst unit. apply zs_eqb_spec in E4. rewrite E4, (chain_D _ _ Hc), Hf.
+  apply (chain2 86400 1000 (86400 # 1) (1000 # 1) x N fl_86400 fl_1000); try assumption; try lra; rewrite <- HN; ring.
+Qed.
+
+(* ... and for the integer-valued suffixes ms / msec *)
+Lemma time_int_units b c suf N :
+  is_num_end c = true ->
+  (upper suf = [77;83] \/ upper suf = [77;83;69;67]) ->
+  e_int_of_str (upper b ++ [c]) = Ok N ->
+  string_to_ms (YStr ((b ++ [c]) ++ suf)) = Ok N.
+Proof.
+  intros Hc Hs Hi. cbn [string_to_ms py_str]. rewrite (upper_body _ _ _ Hc).
+  destruct Hs as [E|E]; rewrite E; [rewrite (chain_MS _ _ Hc)|rewrite (chain_MSEC _ _ Hc)]; exact Hi.
+Qed.
+
+(* string_to_secs is string_to_ms / 1000.0 once the text has a letter in it *)
+Lemma secs_of_ms s z :
+  existsb is_alpha s = true -> string_to_ms (YStr s) = Ok z ->
+  string_to_secs (YStr s) = Ok (fdiv_pos (fl_of_Z z) 1000).
+Proof.
+  intros Ha Hm. unfold string_to_secs. cbn [py_str]. rewrite Ha, Hm. reflexivity.
+Qed.
+
+(* ---------------------------------------------------------------------------------------------- *)
+(* 6. the variants the unfixed code used are wrong (witnesses by computation)                       *)
+Lemma time_trunc_variant_refuted_l :
+  exists (s : str) (N : Z),
+    e_float_of_str s = Ok (fnum (1001 # 1000)) /\ ((1001 # 1000) * (1000 # 1) == inject_Z N)%Q /\
+    r_int (r_fmul (e_float_of_str s) 1000) <> Ok N.
+Proof.
+  exists [49;46;48;48;49], 1001. split; [vm_compute; reflexivity|]. split; [reflexivity|].
+  vm_compute. intro H. discriminate H.
+Qed.
+
+Lemma range_lt_variant_accepts_nan_l :
+  forall lo hi, fl_lt FNaN lo = false /\ fl_lt hi FNaN = false.
+Proof. intros lo hi. split; [reflexivity|destruct hi; reflexivity]. Qed.
+
+(* ---------------------------------------------------------------------------------------------- *)
+(* 7. the hypotheses of the theorems are satisfiable on non-trivial inputs                           *)
+Definition ex_machine : machine := [([115;119], [[115;49]; [115;50]])].          (* sw: s1 s2 *)
+Definition v_int_0_255 : str := [105;110;116;40;48;44;50;53;53;41].               (* int(0,255) *)
+
+Example ex_validate_sound :
+  validate_item ex_machine v_int_0_255 (YStr [32;50;53;32]) = Ok (YInt 25) /\
+  has_type ex_machine v_int_0_255 (YInt 25) = true /\
+  validate_item ex_machine v_int_0_255 (YInt 256) = Err (ECfg 5) /\
+  validate_item ex_machine [102;108;111;97;116;40;48;44;49;41] (YFloat FNaN []) = Err (ECfg 5).
+Proof. vm_compute. repeat split. Qed.
+
+Definition ex_spec : spec :=
+  [([97], SItem s_single v_int_0_255 [53]);                                       (* a: single|int(0,255)|5 *)
+   ([98], SItem n_list_ty n_str s_None_C);                                        (* b: list|str|None *)
+   ([95;120], SRaw)].
+Example ex_section :
+  NoDup (map fst ex_spec) /\
+  validate_config ex_machine false true ex_spec (YDict [(YStr [98], YStr [120;44;32;121])]) =
+    Ok (YDict [(YStr [98], YList [YStr [120]; YStr [121]]); (YStr [97], YInt 5)]) /\
+  exists e, validate_config ex_machine false true ex_spec (YDict [(YStr [122], YInt 1)]) = Err e.
+Proof.
+  split; [|split; [vm_compute; reflexivity|eexists; vm_compute; reflexivity]].
+  repeat constructor; cbn; intuition discriminate.
+Qed.
+
+(* "1.001s" : b = "1.00", c = "1", x = 1001/1000, N = 1001 *)
+Example ex_time_1001 :
+  is_num_end 49 = true /\ unit_ms (upper [115]) = Some (1000 # 1)%Q /\
+  e_float_of_str (upper [49;46;48;48] ++ [49]) = Ok (fnum (1001 # 1000)) /\
+  string_to_ms (YStr (([49;46;48;48] ++ [49]) ++ [115])) = Ok 1001 /\
+  string_to_ms (YStr [50;48;48;109;115;101;99]) = Ok 200.                         (* "200msec" *)
+Proof. vm_compute. repeat split. Qed.
+
+Example ex_store :
+  let st := {| st_specs := [([115], ex_spec)]; st_cache := [] |} in
+  cache_ok st /\
+  snd (validate_config_st ex_machine false true st [[115]] (YDict [])) =
+    Ok (YDict [(YStr [97], YInt 5); (YStr [98], YList [])]).
+Proof. split; [intros n sp H; discriminate H|vm_compute; reflexivity]. Qed.
